@@ -3,17 +3,17 @@ PROPS["C12"] = dict(
     props_file="Properties/C12.v",
     harnesses=[dict(cmd="resolver", mod="root", model="Model.Resolver", quick=130, thorough=6000, shard=44, coq_jobs=12, race=120,
                     require=["op.start", "op.step", "op.step.fail", "op.done", "op.close", "op.release.again", "op.expl", "op.expb",
-                             "op.use.held", "op.refresh", "op.wake", "pause.1", "pause.3", "pause.4", "result.blocked", "result.err",
+                             "op.use.held", "op.refresh.ok", "op.refresh.err", "op.refresh.size", "op.probe.held", "op.wake", "pause.1", "pause.3", "pause.4", "result.blocked", "result.err",
                              "result.ret.fresh", "result.ret.shared", "result.use.closed", "result.use.released-open"]),
                dict(cmd="fsmount", mod="root", model="Model.FsMount", quick=70, thorough=3000, shard=35, coq_jobs=12, race=150,
-                    require=["op.mount", "op.check.mounted", "op.check.refresh", "op.unmount", "op.unmount.unknown", "op.use.mounted",
+                    require=["op.mount", "op.check.mounted", "op.check.refresh.ok", "op.check.refresh.err", "op.check.refresh.size", "op.probe.mounted", "op.unmount", "op.unmount.unknown", "op.use.mounted",
                              "op.expl", "op.expb", "result.mount.ok", "result.mount.err", "result.check.err"])],
     rule="random interleavings of Resolve (suspended inside each external call: connectivity check, registry, metadata store; outcome "
-         "chosen per call) / Done / Close / layer-TTL expiry / blob-TTL expiry / Check+RootNode+reads / Refresh over 3 layer names, each followed "
+         "chosen per call) / Done / Close / layer-TTL expiry / blob-TTL expiry / Check+RootNode+reads served from the caches / Refresh with the registry answering {same blob, resolution error, blob of another size, same size other bytes} / reads of never-read chunks (which must go to the registry) over 3 layer names, each followed "
          "by a closing sequence (finish, release all, expire all, re-resolve, close); non-trivial = a shared and >= 2 fresh instances plus a failed "
          "external call or extra layer expiry; distinct = distinct (executed history, observations). Second harness: random histories of "
          "fs.Mount (target + 2 pre-resolved neighbours, scripted failures of registry / metadata store / connectivity check per layer) / Check "
-         "(check ok?, refresh ok?) / Unmount / reads / expiry over 2 images x 3 layers and 4 mountpoints on the real fs.NewFilesystem without the FUSE server",
+         "(check ok?, Refresh answered {same blob, error, other size, other bytes}) / Unmount / cached reads / reads of never-read chunks / expiry over 2 images x 3 layers and 4 mountpoints on the real fs.NewFilesystem without the FUSE server",
     assumptions=[
         "sync.Mutex / sync.Once / namedmutex behave as documented; every TTLCache method is atomic under the cache mutex and the layer cache's "
         "OnEvicted callback (layer.close, which takes the blob cache mutex) runs inside the layer-cache critical section, so a schedule is a list of sub-steps",
